@@ -21,7 +21,7 @@ def feat(rng):
 
 
 def run_shard(ctx):
-    d = drive.Driver(ctx, feat, flags="random", styles=("mixed", "runs", "dups", "multisec"))
+    d = drive.Driver(ctx, feat, flags="random", styles=("mixed", "runs", "dups", "multisec", "kernel"))
     d.loop(3000, 250000)
     from jv import strata
     strata.operand_not_stratum(ctx, d, ctx.share(160, 6000))
